@@ -5,13 +5,63 @@ JUDGE = ("judge.J10", "J10.judge")
 JUDGE_SCOPE = "N_scope"
 JUDGE_IMPORTS = ("From NSQV Require Import model.Http.",)
 REPO_BINS = [("nsqd", "apps/nsqd", "")]
-RULE = ("placeholder")
-TRUSTED = []
-ASSUMPTIONS = []
-LEVEL_TEXT = "placeholder"
-LEVEL_NOTE = "placeholder"
-TECHNIQUE = "placeholder"
+RULE = ("real nsqd daemons (in-process; max-msg-size 64, max-body-size 320, max-req-timeout 1h; queue scans parked) driven over real loopback "
+        "sockets with raw HTTP/1.1 so that method, path, query, framing and body are exactly the generated ones: "
+        "(route) every method (GET POST PUT DELETE HEAD OPTIONS PATCH TRACE CONNECT FOO get) x every registered path, plus path variants "
+        "(trailing slash added/removed, case changed, doubled slashes, ./.. segments, percent-encoding, truncated/extended, '/', '*'); "
+        "(req) every route with its arguments present / missing / invalid / unknown / empty / duplicated (valid first or invalid first), junk "
+        "parameters, unparsable queries, bodies declared / chunked / with malformed chunk framing, wrong methods, against a generated "
+        "topic/channel state (0-3 topics, 0-3 channels each, paused flags, depths 0-3, ephemeral names) rebuilt for every case; the state is read "
+        "through GET /stats?format=json before and after at the exact quiescence condition of the topic pumps; "
+        "(pub) /pub (bodies 0,1,2,17,62..66,100,321 bytes; defer strings at every boundary incl. the F1 witnesses, signs, junk, 1-22 random digits), "
+        "text /mpub (arbitrary newline layouts, lines 0..66 bytes, bodies around 320 bytes, >63 tiny lines, only blank lines), binary /mpub "
+        "(counts k-1,k,k+1,0,-1,64,2^20,2^31-1,-2^31; sizes 0,-1,n+1,2^31-1; truncated; trailing bytes; padded past the body limit), each "
+        "declared and chunked, valid and invalid topic names, on daemon A - and the TCP twin (PUB / DPUB / MPUB with the same name and payload) "
+        "on daemon B; what each enqueued is consumed over TCP (SUB/RDY/FIN), deferred messages are read with their delay through the verif hook; "
+        "(pint) strconv.ParseInt on the defer strings; (hostile) ~500 malformed byte streams (bad request lines, header floods, negative/huge "
+        "Content-Length, CL+TE, bad and truncated chunk framing on every body-reading route, hostile binary batches, argument soup) against a "
+        "SUBPROCESS nsqd built from the repository, which must still answer /ping afterwards. Every case is non-trivial except 404 route probes; "
+        "distinct = distinct Coq case terms.")
+TRUSTED = [
+    "modelled, not verified (inputs of the model): net/http request parsing (method, URL path after percent-decoding, Content-Length vs chunked, "
+    "the bytes the body yields and whether reading ends in an error), url.ParseQuery (pairs or error), encoding/json acceptance of a PUT /config value",
+    "written out in the model and checked differentially on every run: strconv.ParseInt(s,10,64) (PInt cases), httprouter v1.3.0 dispatch as "
+    "nsqd configures it - exact match, trailing-slash and cleaned/case-insensitive redirects 301 (GET) / 307, 405 via allowed(), OPTIONS, 404 - for "
+    "route tables whose only wildcard is a final :param, ASCII paths (Route cases; non-ASCII paths and CONNECT are monitor-only)",
+    "modelled, not verified: go-diskqueue, Topic.messagePump (as: at quiescence an un-paused topic with channels has copied its queue to every "
+    "channel), the self-deletion of an ephemeral topic that lost its last channel; V1's json.Marshal of /stats, /info, /config values "
+    "(assumed to succeed); a form-encoded body for /debug/setblockrate; strings.ToLower on non-ASCII log levels",
+    "hook /repo/nsqd/verif_http.go (build tag verif): reads a channel's deferred messages with their requested delay",
+    "TCP twins: PUB/DPUB/MPUB/readMPUB are re-modelled inside model/Http.v (tcp_pub, tcp_dpub, tcp_mpub, read_mpub) from nsqd/protocol_v2.go and "
+    "checked against the real TCP listener in every pub case; the command-line splitting of the TCP protocol is C09's",
+]
+ASSUMPTIONS = [
+    "healthy backend (stated in C10_no_500 as healthy_env): /ping's 500 on disk failure, /info's os.Hostname error, 503 EXITING while shutting "
+    "down and a failing diskqueue Empty are outside the statement; C10_source_5xx_are_the_exclusions proves these are the only 5xx literals in nsqd/http.go",
+    "/debug/pprof/* is handed to net/http/pprof (stdlib passthrough): in the generated table, excluded from C10_no_500, probed for liveness only",
+    "net/http's own answers to requests it rejects before routing (400, 431, 501, 505, or a closed connection) are checked only as 'not 500, daemon alive'",
+    "max-req-timeout < MaxInt64 ns (292 years) for the defer equivalence; limits below 2^31 for the text/MPUB framing equivalence",
+]
+LEVEL_TEXT = ("Machine-checked proof (Coq 8.16.1) over an executable model of nsqd/http.go (every handler, getTopicFromQuery / getExistingTopicFromQuery, "
+              "the Content-Length + LimitReader size logic, the text and binary /mpub loops), internal/http_api (V1 / PlainText / Err, NewReqParams, "
+              "GetTopicChannelArgs), httprouter's dispatch rules, and the TCP twins PUB / DPUB / MPUB / readMPUB: for EVERY request (any method, path, "
+              "query, body, framing, even a body ending in a read error) and EVERY daemon state the status is in {200,301,307,400,403,404,405,413}, never 500, "
+              "and obeys the documented token table; /pub == PUB, /pub?defer=D == DPUB D for every digit string, binary /mpub == MPUB on any payload "
+              "(declared: same size field; chunked: the max-body-size prefix), text /mpub has an exact acceptance rule and == MPUB of its non-empty lines "
+              "wherever both framings fit; each admin endpoint's 200 is exactly its effect on exactly the named object, any other answer is no effect, and no "
+              "other topic changes. The route table, router settings, every http_api.Err literal, boolParams, the option names and the argument-error tokens "
+              "are regenerated from the source on every run and tied to the model by proof obligations; the model is tied to the running code by "
+              "differential correspondence including consumption over TCP.")
+LEVEL_NOTE = ("Trusted: Coq kernel + vm_compute; gotables; net/http, url.ParseQuery, encoding/json as model inputs; the hand-written router model (validated "
+              "per run on ~650 probes); the verif hook. Partial: text /mpub measures ITS OWN body against max-body-size (1 framing byte per line) while MPUB "
+              "measures its binary body (4 + 4 per message), so outside the region where both fit the two may accept different batches - proved as "
+              "C10_text_gap_count / _blank_lines / _empty_batch (a text body without a non-empty line is 200 with an empty batch, where MPUB count 0 is "
+              "E_BAD_BODY); the property's equivalence is about what is enqueued under the same per-message limit, and the difference is only in how the "
+              "body limit is measured. A rejected publish may already have created its (empty) topic on both sides - not an enqueue. Sampled: the "
+              "correspondence (the theorems are not). Not modelled: HTTP keep-alive/pipelining, TLS listener, concurrency between requests, 503 while exiting.")
+TECHNIQUE = "Coq proof over all requests and states + generated route/error tables + differential correspondence (HTTP vs TCP twin daemons, consumption over TCP)"
 DESIGN_REF = "DESIGN.md §5 C10, §8a"
+SEARCH_SCALE = 4
 
 
 def drivers():
